@@ -115,7 +115,18 @@ def rule_x12(chk: Check, rule_id: str = "X12-adjacent-literals"):
                 class_consts[tgt.id] = ast.literal_eval(st.value)
             except Exception:
                 pass
-    TI = collections.namedtuple("TokenInfo", "type string start end line")
+    class TI(collections.namedtuple("TokenInfo", "type string start end line")):
+        """stand-in for TokenInfo with its position helpers (what they return is decided by the location rules of C04)"""
+        __slots__ = ()
+
+        def loc_start(self):
+            return {"lineno": self.start[0], "col_offset": self.start[1]}
+
+        def loc_end(self):
+            return {"end_lineno": self.end[0], "end_col_offset": self.end[1]}
+
+        def loc(self):
+            return {**self.loc_start(), **self.loc_end()}
 
     def boom(*a, **k):
         raise Marker("syntax error")
